@@ -12,6 +12,8 @@ from .facts import Facts
 from .units import AnalysisBroken
 
 VERIF = units.VERIF
+# evidence/replay files describe /repo; runs against a scratch copy (SQ_REPO) write theirs elsewhere
+OUT = VERIF if os.path.realpath(units.REPO) == "/repo" else os.environ.get("SQ_OUT", os.path.join(os.environ.get("SQ_CACHE", "/tmp/sqcheck-scratch"), "out"))
 KNOWN = os.path.join(VERIF, "known_findings.txt")
 
 
@@ -426,8 +428,8 @@ class Check:
         }
         if broken:
             ev["coverage"]["analysis_broken"] = str(broken)[:2000]
-        os.makedirs(os.path.join(VERIF, "evidence"), exist_ok=True)
-        with open(os.path.join(VERIF, "evidence", self.pid + ".json"), "w") as f:
+        os.makedirs(os.path.join(OUT, "evidence"), exist_ok=True)
+        with open(os.path.join(OUT, "evidence", self.pid + ".json"), "w") as f:
             json.dump(ev, f, indent=1)
         print("[%s] tier=%s obligations=%d ok=%d violations=%d known=%d functions=%d units=%d wall=%.1fs" % (
             self.pid, self.tier, len(self.obligations), len(oks), len(self.violations), len(self.known_hits),
@@ -439,9 +441,9 @@ class Check:
             if not self.violations:
                 return 2
         if self.violations:
-            os.makedirs(os.path.join(VERIF, "replay"), exist_ok=True)
+            os.makedirs(os.path.join(OUT, "replay"), exist_ok=True)
             for i, v in enumerate(self.violations):
-                rp = os.path.join(VERIF, "replay", "%s-%d.json" % (self.pid, i))
+                rp = os.path.join(OUT, "replay", "%s-%d.json" % (self.pid, i))
                 with open(rp, "w") as f:
                     json.dump(v, f, indent=1)
                 print("  rule=%s key=%s\n  at %s: %s" % (v["rule"], v["key"], v["where"], v["what"]))
